@@ -271,8 +271,11 @@ def interp_obs(i, rnd, title):
     fn = os.path.join("results", re.sub(r'[\\/*?:"<>|\n]', "_", title) + "_ykcals.csv")
     if os.path.exists(fn):
         import pandas as pd
-        df = pd.read_csv(fn, index_col=0)
-        csv = {c: [float(v) for v in df[c].values] for c in df.columns}
+        try:
+            df = pd.read_csv(fn, index_col=0)
+            csv = {c: [float(v) for v in df[c].values] for c in df.columns}
+        except BaseException:  # not a clean table (e.g. repeated header lines): reported by C04 as CsvEqualsResult
+            csv = None
         # (the file is left in place: a later run with the same title must overwrite it, not inherit from it)
     return dict(round=rnd, pf=float(i.percent_people_fed), kcals_fed=fl(i.kcals_fed), percent=pf, kcals_eq=keq, csv=csv,
                 feed_sum_keq=k("feed_sum_kcals_equivalent"), bio_sum_keq=k("biofuels_sum_kcals_equivalent"),
@@ -358,6 +361,8 @@ def run_job(job):
             milk_yield=float(ci["MILK_YIELD_KG_PER_MILK_BEARING_ANIMAL_PER_YEAR"]), add_milk=bool(ci["ADD_MILK"]), add_meat=bool(ci["ADD_MEAT"]),
             waste_dist_meat=float(ci["WASTE_DISTRIBUTION"]["MEAT"]), waste_dist_milk=float(ci["WASTE_DISTRIBUTION"]["MILK"]),
             waste_retail=float(ci["WASTE_RETAIL"]), NMONTHS=int(ci["NMONTHS"]),
+            kg_meat_per_chicken=float(ci["KG_MEAT_PER_CHICKEN"]), kg_meat_per_pig=float(ci["KG_MEAT_PER_PIG"]),
+            kg_meat_per_large_animal=float(job["options"].get("kg_meat_per_large_animal", 269.7)),
             feed_kcals_year=float(ci["FEED_KCALS"]), biofuel_kcals_year=float(ci["BIOFUEL_KCALS"]))
         rec["demand"] = dict(feed=fl(p1[4].kcals), biofuel=fl(p1[5].kcals))
     # herds -> rounds. The herd object whose results feed a round is identified by object identity with the
